@@ -32,7 +32,7 @@ def thresholds(tier):
 
 def knobs_for(rng):
   return {"depth": rng.choice([1, 2, 2, 3]), "max_children": rng.choice([2, 3]), "p_ff": 0.25, "p_connect": 0.4, "p_split": 0.3,
-          "p_struct": 0.25, "p_list": 0.2, "max_sigs": 4, "expr_depth": 1, "p_constraints": 0.7}
+          "p_struct": 0.25, "p_list": 0.2, "max_sigs": 4, "expr_depth": 1, "p_constraints": 0.7, "p_ff_child": rng.choice([0, 0.3])}
 
 
 def nm(x):
@@ -57,6 +57,7 @@ def dump(top):
     if vs and not nm(k).startswith("const:"):
       adj[nm(k)] = sorted(nm(v) for v in vs if not nm(v).startswith("const:")) + sorted(v for v in (nm(v) for v in vs) if v.startswith("const:"))
   D["adjacency"] = sorted(adj.items())
+  D["adjacency_const_keys"] = sorted((nm(k), sorted(nm(v) for v in vs)) for k, vs in top.get_signal_adjacency_dict().items() if nm(k).startswith("const:"))
   host = top.get_update_block_host_component
   def bk(b):
     try:
@@ -79,6 +80,12 @@ def dump(top):
       except Exception: return x.__qualname__
     return repr(x)
   D["U_M"] = sorted(str(tuple(cn(y) for y in x) if isinstance(x, tuple) else cn(x)) for x in U_M)
+  def mn(x):
+    if hasattr(x, "_dsl"): return repr(x)
+    owner = getattr(x, "__self__", None)
+    return f"{repr(owner) if hasattr(owner, '_dsl') else '?'}::{getattr(x, '__name__', '?')}"
+  D["upblk_calls"] = sorted((bk(b), sorted(mn(x) for x in v)) for b, v in calls.items() if v)
+  D["method_nets"] = sorted((mn(w) if w is not None else None, sorted(repr(x) for x in net)) for w, net in top.get_all_method_nets())
   return D
 
 
@@ -183,8 +190,9 @@ def run_case(sh, case):
     widths = {p: w for p, w in G.top_inputs(dk)}
     pths = sorted(ref.sig)
     sims = []
+    from pymtl3 import DefaultPassGroup
     for t in (topA, topB):
-      M.apply_mode(t, "default", rng)
+      t.apply(DefaultPassGroup())          # NOT elaborate() again: that would rebuild the very metadata under test
       sims.append((t, M.Live(t)))
     for cyc, inp in enumerate(seq):
       snaps = []
@@ -281,9 +289,140 @@ def run_cl_case(sh, case):
     G.unload(mod)
 
 
+CL2_SRC = """
+from pymtl3 import *
+class StageRTL(Component):
+  def construct(s, k):
+    s.in_ = InPort(8); s.out = OutPort(8)
+    @update_ff
+    def up():
+      s.out <<= s.in_ + k
+class Prod(Component):
+  def construct(s):
+    s.in_ = InPort(8)
+    s.send = CallerIfcCL()
+    @update_once
+    def up_send():
+      if s.send.rdy(): s.send(s.in_)
+class Cons(Component):
+  @non_blocking(lambda s: True)
+  def recv(s, v):
+    s.nxt = int(v)
+  def construct(s, k):
+    s.out = OutPort(8)
+    s.nxt = 0
+    @update_ff
+    def up_out():
+      s.out <<= (s.nxt + k) & 255
+    s.add_constraints( M(s.recv) < U(up_out) )
+class StageCL(Component):
+  def construct(s, k):
+    s.in_ = InPort(8); s.out = OutPort(8)
+    s.p = Prod(); s.c = Cons(k)
+    s.p.in_ //= s.in_
+    s.out //= s.c.out
+    connect(s.p.send, s.c.recv)
+class Chain(Component):
+  def construct(s, classes, ks, lb=None, tie=None):
+    s.in_ = InPort(8); s.out = OutPort(8)
+    s.stage = [c(k=k) for c, k in zip(classes, ks)]
+    s.stage[0].in_ //= s.in_
+    for i in range(1, len(classes)):
+      s.stage[i].in_ //= s.stage[i-1].out
+    s.out //= s.stage[-1].out
+    if lb is not None:
+      # a registered stage wired back onto itself BY THE PARENT (a counter)
+      s.lb = lb[0](k=lb[1]); s.lbo = OutPort(8)
+      s.lb.in_ //= s.lb.out
+      s.lbo //= s.lb.out
+    if tie is not None:
+      # a stage whose input the parent ties to a constant
+      s.tie = tie[0](k=tie[1]); s.tieo = OutPort(8)
+      s.tie.in_ //= 5
+      s.tieo //= s.tie.out
+"""
+
+
+def run_cl2_case(sh, case):
+  """a pure-RTL stage replaced by a port-compatible stage that contains CL children connected through an INTERNAL method net
+  (and back): method nets / call sets of the replaced design vs a scratch build, and both simulated"""
+  from pymtl3 import DefaultPassGroup
+  rng = sh.rng("cl2", case)
+  mod = G.load_source(CL2_SRC, "c15cl2")
+  try:
+    n = rng.randrange(1, 4)
+    kinds = [rng.choice(["RTL", "RTL", "CL"]) for _ in range(n)]
+    ks = [rng.randrange(1, 9) for _ in range(n)]
+    cls_of = {"RTL": mod.StageRTL, "CL": mod.StageCL}
+    extra = {"lb": [rng.choice(["RTL", "CL"]), rng.randrange(1, 9)] if rng.random() < 0.5 else None,
+             "tie": [rng.choice(["RTL", "CL"]), rng.randrange(1, 9)] if rng.random() < 0.5 else None}
+    mk = lambda kinds_, ks_, ex: mod.Chain([cls_of[k] for k in kinds_], ks_, **{a: None if v is None else (cls_of[v[0]], v[1]) for a, v in ex.items()})
+    setp = None
+    if rng.random() < 0.3:
+      setp = (rng.randrange(n), rng.randrange(1, 9))             # set_param on a list element that may be replaced later
+    topA = mk(kinds, ks, extra)
+    if setp: topA.set_param(f"top.stage[{setp[0]}].construct", k=setp[1])
+    topA.elaborate()
+    steps = []
+    final = list(kinds)
+    slots = list(range(n)) + [a for a in ("lb", "tie") if extra[a] is not None]
+    for _ in range(rng.randrange(1, 4)):
+      i = rng.choice(slots); newk = rng.choice(["RTL", "CL", "CL"]); newv = rng.randrange(1, 9)
+      byclass = rng.random() < 0.5
+      old_k = ks[i] if isinstance(i, int) else extra[i][1]
+      if byclass: newv = old_k          # replace_component( old, cls ) constructs cls with the OLD component's arguments
+      steps.append((i, newk, newv, "class" if byclass else "object"))
+      target = topA.stage[i] if isinstance(i, int) else getattr(topA, i)
+      try:
+        if byclass:
+          topA.replace_component(target, cls_of[newk])
+        else:
+          topA.replace_component_with_obj(target, cls_of[newk](k=newv))
+      except Exception:
+        sh.violation("replace_component-raised", {"kinds": kinds, "steps": steps, "error": traceback.format_exc()[-500:]}, case=("cl2", case)); return
+      if isinstance(i, int):
+        final[i] = newk; ks[i] = newv
+      else:
+        extra[i] = [newk, newv]
+    W = lambda kind, **kw: sh.violation(kind, dict(kw, original=kinds, steps=steps, final=final, extra=extra, set_param=setp), case=("cl2", case))
+    topB = mk(final, ks, extra)
+    if setp: topB.set_param(f"top.stage[{setp[0]}].construct", k=setp[1])
+    topB.elaborate()
+    da, db = dump(topA), dump(topB)
+    for sec in db:
+      sh.count("dump_sections_compared")
+      if da[sec] != db[sec]:
+        W("metadata-differs-from-scratch-build:" + sec, only_in_replaced=[x for x in da[sec] if x not in db[sec]][:4],
+          only_in_scratch=[x for x in db[sec] if x not in da[sec]][:4]); return
+    bad = residue(topA, sh)
+    if bad:
+      W("deleted-component-objects-still-reachable-from-top", names=bad[:6]); return
+    traces = []
+    for nm_, t in (("replaced", topA), ("scratch", topB)):
+      try:
+        t.apply(DefaultPassGroup()); t.sim_reset()
+        tr = []
+        r2 = sh.rng("cl2in", case)
+        for cyc in range(12):
+          t.in_ @= r2.getrandbits(8); t.sim_tick()
+          tr.append((int(t.out), int(t.lbo) if extra["lb"] else None, int(t.tieo) if extra["tie"] else None))
+        traces.append(tr)
+      except Exception:
+        traces.append("raised: " + traceback.format_exc()[-300:])
+    sh.count("cl2_simulations", 2)
+    if traces[0] != traces[1]:
+      W("replaced-design-simulates-differently-from-scratch-build", replaced=traces[0], scratch=traces[1]); return
+    sh.count("cl2_histories"); sh.count("evaluations")
+    sh.fp("cl2", tuple(kinds), tuple(steps))
+  finally:
+    G.unload(mod)
+
+
 def run_shard(sh):
   for case in range(max(3, sh.params["histories"] // 3)):
     run_cl_case(sh, case)
+  for case in range(max(4, sh.params["histories"] // 2)):
+    run_cl2_case(sh, case)
   for case in range(sh.params["histories"]):
     if sh.only is not None and str(case) != str(sh.only).strip('"'):
       continue
